@@ -158,8 +158,12 @@ def project(files, correlate=True, post=None, post_modules=(), file_order="sorte
         def make_reader(path, docmark="!", predocmark="", docmark_alt="", predocmark_alt="", *a, **k):
             base = os.path.basename(path)
             if reader_log is not None:
-                # (file, fixed-form flag, whether a pre-processor command was passed) as FortranSourceFile hands them to the reader
-                reader_log.append((base, a[0] if a else k.get("fixed"), bool(a[2]) if len(a) > 2 else bool(k.get("preprocessor"))))
+                # the arguments FortranSourceFile hands to the reader, bound with the real constructor's signature
+                import inspect
+                b = inspect.signature(rd.FortranReader.__init__).bind(None, path, docmark, predocmark, docmark_alt, predocmark_alt, *a, **k)
+                b.apply_defaults()
+                args = dict(b.arguments)
+                reader_log.append((base, args.get("fixed"), bool(args.get("preprocessor")), args))
             if base in physical:
                 return readerh.mk_reader([l + "\n" for l in files[base]], docmark=docmark, predocmark=predocmark,
                                          docmark_alt=docmark_alt, predocmark_alt=predocmark_alt)
